@@ -1101,6 +1101,30 @@ Lemma refuted_jagged :
 Proof. repeat split; vm_compute; reflexivity. Qed.
 Close Scope string_scope.
 
+Definition refutes (id : string) (p : prog) : Prop :=
+  wf_prog p = true /\ class_of p = Some id /\ parse_tok (fmt_prog true p) <> Some p.
+
+Lemma refuted_ex_matrix_rows : exists p, refutes "matrix-rows" p /\
+  exists r1 r2 flat, p = [SExpr (EMat [r1; r2])] /\ List.length r1 = 3 /\ List.length r2 = 3 /\
+    parse_tok (fmt_prog true p) = Some [SExpr (EMat [flat])] /\ List.length flat = 6.
+Proof.
+  exists w_matrix. destruct refuted_matrix_rows as (H1 & H2 & _ & H4 & H5). split; [repeat split; assumption|].
+  eexists _, _, _. split; [reflexivity|]. repeat split. exact H4.
+Qed.
+Lemma refuted_ex_named_arg : exists p, refutes "named-arg-colon" p.
+Proof. exists w_named. destruct refuted_named_arg as (H1 & H2 & _ & H4). repeat split; assumption. Qed.
+Lemma refuted_ex_range_inc : exists p, refutes "range-increment-order" p.
+Proof. exists w_range. destruct refuted_range_inc as (H1 & H2 & _ & _ & H4). repeat split; assumption. Qed.
+Lemma refuted_ex_sneq : exists p, refutes "strict-neq-spelling" p.
+Proof. exists w_sneq. destruct refuted_sneq as (H1 & H2 & _ & H4). repeat split; assumption. Qed.
+Lemma refuted_ex_subset : exists p, refutes "subset-spelling" p.
+Proof. exists w_subset. destruct refuted_subset as (H1 & H2 & _ & H4). repeat split; assumption. Qed.
+Lemma refuted_ex_cross : exists p, refutes "cross-spelling" p.
+Proof. exists w_cross. destruct refuted_cross as (H1 & H2 & _ & H4). repeat split; assumption. Qed.
+Lemma refuted_ex_jagged : exists p, wf_prog p = true /\ existsb is_panic (fmt_prog true p) = true /\
+  parse_tok (fmt_prog false p) = Some p.
+Proof. exists w_jagged. exact refuted_jagged. Qed.
+
 (* the texts of the symbols of the vocabulary are pairwise different: a token is determined by its text *)
 Definition in_vocab (s : sym) : bool := match s with SOther _ | SPanic => false | _ => true end.
 
